@@ -5,6 +5,10 @@ func init() { generators["C12"] = genC12 }
 // genC12: loss / delay / duplication / reordering of the 7 transmissions and of responses,
 // concurrent transactions, Close at any point, write errors, all RTO settings.
 func genC12(p *Plan, r *RNG) {
+	if r.Chance(1, 6) {
+		genC12CloseInWrite(p, r)
+		return
+	}
 	p.World = "cli"
 	p.Flavor = "txn"
 	p.Cfg = Config{Realm: "sim.realm", LatCSns: int64(r.Range(1, 60))*ms + int64(r.Intn(1000))*7 + 3, LatSPns: ms,
@@ -64,4 +68,38 @@ func genC12(p *Plan, r *RNG) {
 		p.Stalls = append(p.Stalls, Stall{M: Match{Class: cls, Args: "*", Nth: r.Range(1, 30)}, ParkNS: r.PickI64([]int64{0, 1, ms, 250 * ms, 3 * sec})})
 	}
 	p.QuietNS = 15 * sec
+}
+
+// genC12CloseInWrite: Close (or a second caller) lands while a (re)transmission is inside the
+// socket write, which then succeeds or fails - teardown racing an in-flight transmission.
+func genC12CloseInWrite(p *Plan, r *RNG) {
+	p.World = "cli"
+	p.Flavor = "txn-close-in-write"
+	p.Cfg = Config{Realm: "sim.realm", LatCSns: int64(r.Range(1, 60))*ms + 3, LatSPns: ms, RTOms: r.PickInt([]int{0, 50, 200, 800}), Extra: map[string]int64{}}
+	p.Ops = append(p.Ops, Op{Actor: "app", Kind: "bind_txn", At: gap(int64(r.Range(1, 300)) * ms)})
+	if r.Chance(1, 3) {
+		p.Ops = append(p.Ops, Op{Actor: "app", Kind: "bind_txn", At: gap(int64(r.Range(1, 100)) * ms)})
+	}
+	p.Reactions = append(p.Reactions, Reaction{Method: "binding", Do: "drop"})
+	k := r.Range(1, 7) // which transmission is caught inside the write
+	park := r.PickI64([]int64{100 * ms, sec, 5 * sec})
+	p.Stalls = append(p.Stalls, Stall{M: Match{Class: "sock:client:WriteTo", Args: "*", Nth: k}, ParkNS: park})
+	if r.Chance(2, 3) {
+		p.IOFaults = append(p.IOFaults, IOFault{M: Match{Sock: "client", Op: "WriteTo", Nth: k}, Do: "error"})
+	}
+	// the close falls somewhere around the parked write
+	rto := int64(p.Cfg.RTOms) * ms
+	if rto == 0 {
+		rto = 200 * ms
+	}
+	offs, _ := rtoSchedule(rto)
+	at := offs[k-1] + park/2
+	if r.Chance(1, 4) {
+		at = offs[k-1] + r.PickI64([]int64{-ms, 0, 1, park, park + ms})
+	}
+	if at < ms {
+		at = ms
+	}
+	p.Ops = append(p.Ops, Op{Actor: "app", Kind: "client_close", At: gap(at)})
+	p.QuietNS = 20 * sec
 }
